@@ -1,5 +1,6 @@
 import AslModel.Rc
 import AslProofs.Rc
+import AslProofs.RcMutex
 import Gen.ShapesGen
 /-!
 # C12 — Shared handles and atomic counters are correct under every thread interleaving
@@ -168,15 +169,18 @@ theorem atomiccount_sum (c : Cfg) (k : Nat) (hk : k < c.ctr.length) (s : List Na
 theorem nonatomic_loses :
     done (run racyIncr [0, 1, 0, 1]) = true ∧ (run racyIncr [0, 1, 0, 1]).vars = [1] := by decide
 
-/-- full statement for `Atomic<T>`: every operator is `lock; x := x + d; unlock` on the variable's own
-    mutex; then after any complete schedule `x = initial + Σ d`.  Not yet proved in general (validated
-    by the exhaustive enumeration of the correspondence check); the two-thread instance below is. -/
-def atomic_T_sum_full : Prop :=
-  ∀ (progs : List (List Int)) (s : List Nat),
-    let thrs := progs.map fun ds => ({ prog := ds.flatMap fun d => [Step.lock 0, Step.load 0, Step.store 0 d, Step.unlock 0],
-                                       held := [], pending := none, tmp := 0 } : Thr)
-    let c : Cfg := { rc := [], alive := [], frees := [], ctr := [], mtx := [false], vars := [0], thrs := thrs, bad := none }
-    done (run c s) = true → (run c s).vars = [(progs.map List.sum).sum]
+/-- **atomic_T_sum.**  `Atomic<T>` operators are `lock; tmp := x; x := tmp + d; unlock` on the variable's
+    own mutex, with the load and the store as *separate* steps that other threads may interleave with.
+    For any number of threads, any lists of operands and every schedule that runs them to completion,
+    the variable ends at its initial value plus the sum of all operands: mutual exclusion alone makes the
+    read-modify-write atomic (compare `nonatomic_loses`, the same steps without the lock). -/
+theorem atomic_T_sum (progs : List (List Int)) (x0 : Int) (s : List Nat)
+    (hd : done (run (atomicCfg progs x0) s) = true) :
+    (run (atomicCfg progs x0) s).vars.getD 0 0 = x0 + (progs.map List.sum).sum ∧
+    (run (atomicCfg progs x0) s).bad = none :=
+  AslProofs.Rc.atomic_T_sum progs x0 s hd
+
+example : done (run (atomicCfg [[1, 2], [3]] 10) [0, 1, 0, 0, 0, 1, 1, 1, 1, 0, 0, 0, 0]) = true := by decide
 
 /-! ## non-vacuity: concrete scenarios meeting the hypotheses (tests, labelled as such) -/
 
